@@ -359,7 +359,7 @@ pub uninterp spec fn own_leaf_identity(v: MlsView) -> Option<PublicKey>;
 #[verifier::external_body]
 pub struct Credential { _p: u8 }
 impl Clone for Credential { #[verifier::external_body] fn clone(&self) -> (r: Self) ensures r == *self { unimplemented!() } }
-pub struct Member { pub index: LeafNodeIndex, pub credential: Credential }
+pub struct Member { pub index: LeafNodeIndex, pub credential: Credential, pub encryption_key: Vec<u8>, pub signature_key: Vec<u8> }   // openmls::prelude::Member (all four public fields)
 #[verifier::external_body]
 pub struct BasicCredential { _p: u8 }
 pub uninterp spec fn cred_is_basic(c: Credential) -> bool;
@@ -429,9 +429,17 @@ impl UnsignedEvent {
 // ---- proposals inside a staged commit (assumed OpenMLS API; iterators modelled as slices)
 impl Clone for LeafNode { #[verifier::external_body] fn clone(&self) -> (r: Self) ensures r == *self { unimplemented!() } }
 pub uninterp spec fn leaf_credential(l: LeafNode) -> Credential;
+#[verifier::external_body] pub struct SignaturePublicKey { _p: u8 }
+impl SignaturePublicKey {
+    pub uninterp spec fn bytes(&self) -> Seq<u8>;
+    #[verifier::external_body] pub fn as_slice(&self) -> (r: &[u8]) ensures r@ == self.bytes() { unimplemented!() }
+}
+pub uninterp spec fn leaf_signature_key(l: LeafNode) -> SignaturePublicKey;
 impl LeafNode {
     #[verifier::external_body]
     pub fn credential(&self) -> (r: &Credential) ensures *r == leaf_credential(*self) { unimplemented!() }
+    #[verifier::external_body]
+    pub fn signature_key(&self) -> (r: &SignaturePublicKey) ensures *r == leaf_signature_key(*self) { unimplemented!() }
 }
 pub open spec fn leaf_identity(l: LeafNode) -> Option<PublicKey> {
     if cred_is_basic(leaf_credential(l)) && cred_identity(leaf_credential(l)).len() == 32 && pk_bytes_valid(cred_identity(leaf_credential(l)))
